@@ -55,15 +55,20 @@ def main():
                           "demo_exit_on_clean_tree": res.get("demo_on_clean_rc")},
             "ran": "lib/seedtest.py: scratch worktree of /repo HEAD + patch; meson/ninja build; meson test; run_demo.sh on the "
                    "changed build and on /repo/_build; ./check <id> --tier %s with ZCK_REPO=<worktree>" % tier,
-            "checks": chk, "error": res.get("error")}
+            "checks": chk, "error": res.get("error"),
+            "verif_commit": subprocess.run(["git", "-C", VERIF, "rev-parse", "--short", "HEAD"], stdout=subprocess.PIPE).stdout.decode().strip()}
     if bundled:
         meta["configuration"] = "-Dwith-openssl=disabled (suite and demonstration run in that configuration)"
     old = os.path.join(dst, "meta.json")
     if os.path.exists(old):
         try:
             o = json.load(open(old))
-            if o.get("history"):
-                meta["history"] = o["history"]
+            meta["history"] = o.get("history", [])
+            if o.get("checks") and o["checks"] != chk and not any(h.get("checks") == o["checks"] for h in meta["history"]):
+                # an earlier measurement against an earlier version of the checks: keep it (what was missed, and when)
+                meta["history"].append({"measured_at_verif_commit": o.get("verif_commit", "earlier"), "checks": o["checks"]})
+            if not meta["history"]:
+                del meta["history"]
         except Exception:
             pass
     with open(old, "w") as f:
